@@ -10,7 +10,7 @@ import (
 )
 
 // runPath executes one path of a root, steered by prefix.
-func runPath(P *Prog, sol, alt *Solver, root Root, prefix []Dec, wantWitness, wantProbe bool, covered map[string]bool, trace bool) (pr *PathResult) {
+func runPath(P *Prog, sol, alt, cross *Solver, crossRate int, root Root, prefix []Dec, wantWitness, wantProbe bool, covered map[string]bool, trace bool) (pr *PathResult) {
 	pr = &PathResult{}
 	e := &Exec{P: P, ctx: NewCtx(), sol: sol, alt: alt, prefix: prefix,
 		pcSet:     map[*Term]bool{},
@@ -24,6 +24,8 @@ func runPath(P *Prog, sol, alt *Solver, root Root, prefix []Dec, wantWitness, wa
 		maxSteps:  root.MaxSteps,
 		maxDecs:   root.MaxDecs,
 		libPrio:   root.LibPrio,
+		cross:     cross,
+		crossRate: crossRate,
 		trace:     os.Getenv("GOSYM_TRACE") != "",
 	}
 	if e.maxSteps == 0 {
@@ -108,6 +110,7 @@ func runPath(P *Prog, sol, alt *Solver, root Root, prefix []Dec, wantWitness, wa
 	pr.FuncsSeen = e.funcsSeen
 	pr.NDec = e.newDecs
 	pr.RaceChecks = e.raceChecks
+	pr.CrossChecked, pr.CrossDisagree = e.crossChecked, e.crossDisagree
 	switch r := res.(type) {
 	case nil:
 		pr.Status = "ok"
